@@ -261,17 +261,14 @@ impl Compiler {
         // Track if iterator is exhausted (by rest pattern)
         let mut iterator_exhausted = false;
 
-        for (i, elem) in arr_pat.elements.iter().enumerate() {
+        for elem in arr_pat.elements.iter() {
             if let Some(pattern) = elem {
                 // Check for rest pattern
                 if let Pattern::Rest(rest) = pattern {
                     // Collect remaining elements into an array
                     // This exhausts the iterator, so no need to close it
                     let rest_arr = self.builder.alloc_register()?;
-                    self.builder.emit(Op::CreateRestArray {
-                        dst: rest_arr,
-                        start_index: i as u8,
-                    });
+                    self.emit_rest_array(rest_arr, iter_reg, result_reg, elem_value)?;
                     self.compile_pattern_binding(&rest.argument, rest_arr, mutable, is_var)?;
                     self.builder.free_register(rest_arr);
                     iterator_exhausted = true;
@@ -312,6 +309,55 @@ impl Compiler {
         self.builder.free_register(result_reg);
         self.builder.free_register(iter_reg);
 
+        Ok(())
+    }
+
+    /// Collect what is left of the iterator in `iter_reg` into a new array in `rest_arr`
+    /// (`[a, ...rest]`), one `next()` per turn of a bytecode loop so that every kind of
+    /// iterator (arrays, strings, Set/Map, generators) is drained the same way.
+    fn emit_rest_array(
+        &mut self,
+        rest_arr: Register,
+        iter_reg: Register,
+        result_reg: Register,
+        elem_value: Register,
+    ) -> Result<(), JsError> {
+        self.builder.emit(Op::CreateArray {
+            dst: rest_arr,
+            start: elem_value,
+            count: 0,
+        });
+        let single = self.builder.alloc_register()?;
+
+        let loop_start = self.builder.current_offset();
+        self.builder.emit(Op::IteratorNext {
+            dst: result_reg,
+            iterator: iter_reg,
+        });
+        let done = super::JumpPlaceholder {
+            instruction_index: self.builder.emit(Op::IteratorDone {
+                result: result_reg,
+                target: 0,
+            }),
+        };
+        self.builder.emit(Op::IteratorValue {
+            dst: elem_value,
+            result: result_reg,
+        });
+        // Append the element: spread a one-element array onto the rest array
+        self.builder.emit(Op::CreateArray {
+            dst: single,
+            start: elem_value,
+            count: 1,
+        });
+        self.builder.emit(Op::SpreadArray {
+            dst: rest_arr,
+            src: single,
+        });
+        self.builder.emit_jump_to(loop_start);
+        self.builder.patch_jump(done);
+
+        self.builder.free_register(single);
         Ok(())
     }
 
@@ -519,14 +565,11 @@ impl Compiler {
         // Track if iterator is exhausted (by rest pattern)
         let mut iterator_exhausted = false;
 
-        for (i, elem) in arr_pat.elements.iter().enumerate() {
+        for elem in arr_pat.elements.iter() {
             if let Some(pattern) = elem {
                 if let Pattern::Rest(rest) = pattern {
                     let rest_arr = self.builder.alloc_register()?;
-                    self.builder.emit(Op::CreateRestArray {
-                        dst: rest_arr,
-                        start_index: i as u8,
-                    });
+                    self.emit_rest_array(rest_arr, iter_reg, result_reg, elem_value)?;
                     self.compile_pattern_assignment(&rest.argument, rest_arr)?;
                     self.builder.free_register(rest_arr);
                     iterator_exhausted = true;
